@@ -297,7 +297,10 @@ def main(argv):
         wall_s=wall,
         violations=len(violations) if rc == 1 else 0,
     )
-    with open(os.path.join(VERIF, "evidence", prop + ".json"), "w") as f:
+    # runs against a scratch checkout (VERIF_REPO set, used for mutation testing) must not overwrite the real evidence
+    evdir = os.path.join(VERIF, "evidence") if os.path.realpath(REPO) == "/repo" else os.path.join(WORK, "evidence-scratch")
+    os.makedirs(evdir, exist_ok=True)
+    with open(os.path.join(evdir, prop + ".json"), "w") as f:
         json.dump(ev, f, indent=1, default=str)
     log("%s %s: obligations=%d discharged=%d violations=%d undecided=%d wall=%.1fs rc=%d" % (
         prop, tier, obligations, discharged, len(violations), len(undecided), wall, rc))
